@@ -330,8 +330,8 @@ QuickCallReqs == {Huge, CFrame + CSStore - 1}
 DepthTopGas == {GasBig}
 DepthCallReqs == {Huge, 30000}
 TokCallReqs == {1200000}
-BigTopGas == {GasBig, 1, 21000, 600000} \cup Edge1(CSStore)
-BigCallReqs == {Huge, 0, 2300, CFrame + CTokXfer - 1} \cup Edge1(CSStore)
+BigTopGas == {GasBig, 1, 600000} \cup Edge1(CSStore)
+BigCallReqs == {Huge, 0, 2300} \cup Edge1(CSStore)
 
 (* ---- export for the replay harness ----------------------------------- *)
 Export == [top |-> top, ops |-> prog, result |-> result, frames |-> frames, world |-> world]
